@@ -23,7 +23,7 @@ import (
 // search queries. Under the race detector any unsynchronised access fails the run; after all arrivals the
 // rows and every answer must equal those of a sequential, dependency-ordered delivery of the same world.
 func TestConcurrentIndexingWhileQueried(t *testing.T) {
-	evid.Check(t, 60, 400, func(t *rapid.T) {
+	evid.Check(t, 180, 400, func(t *rapid.T) {
 		cfg := vworld.Config{MaxPermanodes: 3, MaxAttrClaims: 8, MaxDeletes: 3, MaxChain: 2, MaxFiles: 2, MaxDirs: 1, MaxOpaque: 2,
 			TwoSigners: rapid.Bool().Draw(t, "twoSigners"), Attrs: vworld.DefaultAttrs, Values: vworld.DefaultValues, RefValues: true}
 		w := vworld.Draw(t, cfg)
